@@ -33,6 +33,7 @@ func junkAt(w *World, round string, now int64, thorough bool) []Item {
 		raw("bad-json", ev, `{"ParticipantId":`, u[1])
 		raw("json-null", ev, `null`, u[1])
 		raw("json-array", ev, `[1,2,3]`, u[1])
+		raw("json-empty-array", ev, `[]`, u[1]) // decodes to an EMPTY, non-nil list where a list is expected
 		raw("type-confusion", ev, `{"ParticipantId":"one","CreatedAt":17}`, u[1])
 		raw("negative-id", ev, `{"ParticipantId":-1,"CreatedAt":"2023-11-14T22:13:30Z","Commit":"QQ==","Deal":"QQ==","MasterKey":"QQ==","BatchID":"b"}`, u[1])
 		raw("huge-id", ev, `{"ParticipantId":9223372036854775807,"CreatedAt":"2023-11-14T22:13:30Z","Commit":"QQ==","Deal":"QQ==","MasterKey":"QQ==","BatchID":"b"}`, u[1])
